@@ -17,6 +17,7 @@
  3. code -> spec: long seeded random runs (hundreds of Messages, random segmentation, 0-byte and 1-byte results, one byte at a time),
     GwAbs monitor on all of them; the event logs of some are validated by TLC against GwAbs (GwAbsTrace, every gateway type) and, call by
     call with the real constants, against GwBinaryImpl (GwBinaryTrace).
+ 3b. size sweeps: Message / line / chunk sizes across every internal threshold of the gateways (read from their sources), incl. the documented receiver limits.
  4. directed cases of the open known findings F12 (empty chunk hides the rest) and F42 (two layouts with the same template id: the second
     Message arrives altered) and of the repaired F41 (templating receiver kept its old inflater when the sender's zlib level changed);
     F41 and F42 were found by this check.
@@ -335,7 +336,8 @@ def _run(v, tier, seed):
             vlib.write_ndjson(bf, [{"id": i, "steps": s} for i, s in enumerate(beh)])
             harness("gw", ["tcache", bf, unit, budget, rep], "tcache " + tag)
             return tag, st, vlib.read_ndjson(rep), beh[len(beh) // 2]
-        TC = [ex.submit(tcache, "b4", (11, 22, 33, 42), 4, 5, 2, 100), ex.submit(tcache, "b3", (11, 21, 32), 3, 5 if quick else 6, 3, 64)]
+        TC = [ex.submit(tcache, "b4", (11, 22, 33, 42), 4, 5, 2, 100), ex.submit(tcache, "b3", (11, 21, 32), 3, 5 if quick else 6, 3, 64),
+              ex.submit(tcache, "b3x", (12, 13, 14, 21), 3, 4 if quick else 5, 2, 64)]      # templates of budget - 1, budget, budget + 1 bytes
         if not quick: TC.append(ex.submit(tcache, "b6", (11, 22, 33, 43, 54), 6, 6, 2, 250))
 
         def text_leg(maxlen):
@@ -358,6 +360,17 @@ def _run(v, tier, seed):
             harness(p, ["menu", rep, seed, 0 if quick else 1] + cfgs, "menu " + tag)
             return tag, vlib.read_ndjson(rep)
         M = [ex.submit(menu, "gw", sum(groups, []), "gw")] + [ex.submit(menu, p, g, p) for p, g in C_GROUPS]
+
+        # Message / line / chunk SIZES across the internal thresholds of every gateway (scratch receive buffer 2048 - 8: every wire body 2030 .. 2060, also after
+        # compression / templating; compression limit; text read buffer and sender recursion; raw scratch space, minimum / maximum chunk size; SLIP pending buffer and
+        # escape pairs split by a piece end; WebSocket length encodings; mini buffer doubling and 64 KiB shrink; micro buffers) and the documented receiver limits
+        # (SetMaxIncomingMessageSize, micro input buffer: limit - 1 and limit arrive, limit + 1 does not), each in one piece, under two random segmentations, small ones bytewise
+        def sizes(p, cfgs, tag):
+            rep = W("sizes_%s.ndjson" % tag)
+            harness(p, ["sizes", rep, seed, 0 if quick else 1] + cfgs, "sizes " + tag)
+            return tag, vlib.read_ndjson(rep)
+        Z = [ex.submit(sizes, "gw", sum(groups, []) + ["bin_max2040", "bin_max3000"], "gw"), ex.submit(sizes, "gwmini", ["mini_tx", "mini_rx"], "gwmini"),
+             ex.submit(sizes, "gwmicro", ["micro_tx", "micro_rx", "micro_tx_4k", "micro_rx_4k"], "gwmicro")]
 
         # -----------------------------------------------------------------------------------------------------------
         # 1. model checking
@@ -499,6 +512,15 @@ def _run(v, tier, seed):
             s = judge(rows, "Message menu, one byte at a time", "menu")
             for k in mn: mn[k] += s.get(k, 0)
 
+        # collect: size sweeps
+        zs = {"size_cases": 0, "runs": 0, "limit_runs": 0, "messages": 0, "bytes_moved": 0}; zper = {}
+        for f in Z:
+            tag, rows = f.result()
+            s = judge(rows, "size sweep across the gateways' internal thresholds", "sizes")
+            for k in zs: zs[k] += s.get(k, 0)
+            for c, d in s.get("per_config", {}).items(): zper[c] = d.get("size_cases", 0)
+        if (zs["size_cases"] < 1500 or zs["limit_runs"] == 0 or min(zper.values()) == 0) and not v.violations: raise vlib.MachineryError("vacuity guard: size sweep too small: %s %s" % (zs, zper))
+
         # collect: random runs and their logs
         exs = {"runs": 0, "messages": 0, "io_calls": 0, "zero_byte_results": 0, "one_byte_results": 0, "items_delivered": 0, "bytes_moved": 0, "trace_lines": 0, "traced_runs": 0, "messages_skipped_known_finding": 0}
         abs_lines = 0; bin_lines = 0; abs_logs = []; bin_logs = []
@@ -547,10 +569,11 @@ def _run(v, tier, seed):
            "text_streams": ts["streams"], "text_runs": ts["runs"], "text_reads_splitting_cr_lf": ts["crlf_split_across_reads"],
            "slip_chunk_lists": ss["chunk_lists"], "slip_runs": ss["runs"], "slip_reads_ending_in_esc": ss["esc_split_across_reads"],
            "menu_runs_one_byte_at_a_time": mn["runs"], "menu_io_calls": mn["io_calls"],
+           "size_sweep_cases": zs["size_cases"], "size_sweep_runs": zs["runs"], "size_sweep_documented_limit_runs": zs["limit_runs"], "size_sweep_cases_per_configuration": zper,
            "random_runs": exs["runs"], "random_messages": exs["messages"], "random_io_calls": exs["io_calls"], "random_zero_byte_results": exs["zero_byte_results"],
            "random_one_byte_results": exs["one_byte_results"], "random_items_checked": exs["items_delivered"], "random_bytes_moved": exs["bytes_moved"],
            "runs_validated_by_tlc": exs["traced_runs"], "event_log_lines_validated_against_GwAbs": abs_lines, "call_log_lines_validated_against_GwBinaryImpl": bin_lines,
-           "evaluations": rp["replays"] + tcs["replays"] + ts["runs"] + ss["runs"] + mn["runs"] + exs["runs"],
+           "evaluations": rp["replays"] + tcs["replays"] + ts["runs"] + ss["runs"] + mn["runs"] + exs["runs"] + zs["runs"],
            "distinct_nontrivial": rp["followed"] + tcs["followed"],
            "rule": "behaviours = path cover of EVERY transition of the TLC state graph of GwBinaryImpl (HS=2, SCR=5, bodies below / at / above the scratch size, maxBytes 1,2,3,unlimited, every transport budget) "
                    "and of GwTemplateCache; distinct by construction (each adds an uncovered transition; simulated ones de-duplicated by hash); each replayed under every gateway configuration in 1-3 concretisations; "
